@@ -38,7 +38,7 @@ def run(ctx):
   rule_u2f(ctx)
   # "signatures of other issuers in the same batch keep their own verdict": every signature gets an entry created for it alone (shared with C16)
   from . import c16
-  ctx.borrow(lambda c: c16.rule_once(c, T.bodies(c.repo)), "R-C08-OWN", lambda r: r.where.startswith("ecdsa_sig_checks:"))
+  c16.rule_isolated(ctx, T.bodies(ctx.repo), "R-C08-OWN", lambda w: w.startswith("ecdsa_sig_checks:"))
   ctx.expect("R-C08-OWN", 3, "BiasedBaseCheck, CheckCr50U2f, CheckIssuerKey")
   ctx.expect("R-C08-GROUP", 4, "two checks x (partition, issuer grouping)")
   ctx.expect("R-C08-WINDOW", 3, "sizes, aligned slices, accumulation")
